@@ -44,6 +44,8 @@ var decls = []item{
 	{"sl", "var sl = []int{1, 2}", nil, "sl"},
 	{"I", "type I interface{ Sum() int }", nil, ""},
 	{"iv", "var iv I = P{3, 4}", []string{"I", "P", "Sum"}, "iv.Sum()"},
+	{"fs", "var fs []func() int", nil, "len(fs)"},
+	{"calls", "func calls() []int {\n\tvar r []int\n\tfor _, f := range fs {\n\t\tr = append(r, f())\n\t}\n\treturn r\n}", []string{"fs"}, "calls()"},
 }
 
 var stmts = []item{
@@ -59,6 +61,11 @@ var stmts = []item{
 	{"iv=", "iv = p\nShow(\"iv\", iv.Sum())", []string{"iv", "p"}, ""},
 	{"closure", "f := func() int { return x * 2 }\nx = f()", []string{"x"}, ""},
 	{"bump2", "Show(\"bump\", bump(), bump())", []string{"bump"}, ""},
+	// closures created by a loop of a top-level statement, called by later statements
+	{"loop-closures", "for i := 0; i < 3; i++ {\n\tfs = append(fs, func() int { return i * 10 })\n}", []string{"fs", "calls"}, ""},
+	{"range-closures", "for k, v := range []string{\"a\", \"bb\"} {\n\tfs = append(fs, func() int { return k*100 + len(v) })\n}", []string{"fs", "calls"}, ""},
+	{"body-local-closures", "for i := 0; i < 2; i++ {\n\tw := i + 5\n\tfs = append(fs, func() int {\n\t\tw++\n\t\treturn w\n\t})\n}", []string{"fs", "calls"}, ""},
+	{"call-closures", "Show(\"calls\", calls(), calls())", []string{"fs", "calls"}, ""},
 }
 
 type prog struct {
@@ -462,7 +469,7 @@ func main() {
 	r.Set("distinct_nontrivial", len(res.Sets["outputs"]))
 	r.Set("whole_programs_rejected_runs", res.Counts["whole_program_rejected"])
 	r.Set("exhaustive", true)
-	r.Set("rule", fmt.Sprintf("programs = every dependency-closed subset of <= %d of 16 declaration items (define-before-use order) x every sequence of <= %d applicable statements + a final Show of all declared globals; every cut of the declaration section and of the statement section into consecutive chunks x {successive Eval, Compile+Execute, CompileAST+Execute}; whole program through Compile+Execute, CompileAST, EvalPath on disk and on MapFS; reference = Eval of the whole program in a fresh interpreter; states = distinct whole-program outputs", maxD, maxS))
+	r.Set("rule", fmt.Sprintf("programs = every dependency-closed subset of <= %d of 18 declaration items (define-before-use order) x every sequence of <= %d applicable statements + a final Show of all declared globals; every cut of the declaration section and of the statement section into consecutive chunks x {successive Eval, Compile+Execute, CompileAST+Execute}; whole program through Compile+Execute, CompileAST, EvalPath on disk and on MapFS; reference = Eval of the whole program in a fresh interpreter; states = distinct whole-program outputs", maxD, maxS))
 	r.Assumptions = []string{"a chunk is either declarations or statements (declarations precede statements); forward references across a cut are not demanded", "reference = the whole program evaluated once (C01 binds that to the compiler)"}
 	for _, i := range []int{0, len(runs) / 2, len(runs) - 1} {
 		r.Sample(map[string]interface{}{"program": runs[i].P.Name, "mode": runs[i].Mode, "decl_cuts": runs[i].DMask, "stmt_cuts": runs[i].SMask, "decls": runs[i].P.Decls, "stmts": runs[i].P.Stmts})
